@@ -521,3 +521,161 @@ def _from_picks(e, prior, prefixes, rest, tight):
       r = rest[len(head):] if t1 else ()
       for tail, t2 in _from_picks(e, prior + (p,), prefixes, r, t1):
         yield head + tail, t2
+
+
+# --------------------------------------------------------------------------
+# Enumerable custom points and the reported size (added for C11 round 4;
+# nothing above uses it).  A custom element may carry `values`: the finite
+# sequence of pairwise different strings its user-given successor function
+# walks through (first value, ..., last value, end).  Such a point can be
+# iterated although its reported size, like that of every custom point and of
+# every float, is "infinite".
+# --------------------------------------------------------------------------
+
+def custom_values(e):
+  return e.get('values') if e['t'] == 'custom' else None
+
+
+def enum_size(space):
+  """Number of members an iteration yields; None when the space cannot be
+  iterated (a float or a custom point without successor function is
+  reachable)."""
+  total = 1
+  for e in space['elems']:
+    s = _enum_elem_size(e)
+    if s is None:
+      return None
+    total *= s
+  return total
+
+
+def _enum_elem_size(e):
+  if e['t'] == 'custom':
+    vals = custom_values(e)
+    return None if vals is None else len(vals)
+  if e['t'] != 'choice':
+    return None
+  subs = [enum_size(c) for c in e['cands']]
+  if any(s is None for s in subs):
+    return None
+  total = 0
+  for picks in pick_tuples(e):
+    m = 1
+    for p in picks:
+      m *= subs[p]
+    total += m
+  return total
+
+
+def reported_size(space):
+  """The size a space reports: the number of members, -1 ("infinite") as
+  soon as one float or custom point is reachable."""
+  s = size(space)
+  return -1 if s is None else s
+
+
+def reported_elem_size(e):
+  s = elem_size(e)
+  return -1 if s is None else s
+
+
+def enumerate_members(space):
+  """`enumerate_flat` for spaces whose custom points are enumerable: a custom
+  point contributes its values in the order of its successor function."""
+  yield from _enumx_elems(space['elems'], 0)
+
+
+def _enumx_elems(elems, i):
+  if i == len(elems):
+    yield ()
+    return
+  for head in _enumx_elem(elems[i]):
+    for tail in _enumx_elems(elems, i + 1):
+      yield head + tail
+
+
+def _enumx_elem(e):
+  vals = custom_values(e)
+  if vals is not None:
+    for v in vals:
+      yield (v,)
+    return
+  if e['t'] != 'choice':
+    raise ValueError('space cannot be enumerated')
+  tuples = pick_tuples(e)
+  prefixes = {t[:i] for t in tuples for i in range(e['k'] + 1)}
+  yield from _enumx_picks(e, (), prefixes)
+
+
+def _enumx_picks(e, prior, prefixes):
+  if len(prior) == e['k']:
+    yield ()
+    return
+  for p in range(len(e['cands'])):
+    if prior + (p,) not in prefixes:
+      continue
+    for sub in enumerate_members(e['cands'][p]):
+      head = (p,) + sub
+      for tail in _enumx_picks(e, prior + (p,), prefixes):
+        yield head + tail
+
+
+def custom_elems(space):
+  """Every custom element of a description, in declaration order."""
+  out = []
+  for e in space['elems']:
+    if e['t'] == 'custom':
+      out.append(e)
+    elif e['t'] == 'choice':
+      for c in e['cands']:
+        out.extend(custom_elems(c))
+  return out
+
+
+def increasing_customs(space):
+  """True when the values of every enumerable custom point increase strictly
+  (then the whole enumeration increases strictly in decision order)."""
+  for e in custom_elems(space):
+    vals = custom_values(e)
+    if vals is not None and any(not a < b for a, b in zip(vals, vals[1:])):
+      return False
+  return True
+
+
+def infinite_direct(space):
+  """Number of elements of this very space (not of sub-spaces) that are
+  infinite by the reference."""
+  return sum(1 for e in space['elems'] if elem_size(e) is None)
+
+
+def max_infinite_direct(space):
+  """Largest number of infinite elements directly in one (sub-)space."""
+  best = infinite_direct(space)
+  for e in space['elems']:
+    if e['t'] == 'choice':
+      for c in e['cands']:
+        best = max(best, max_infinite_direct(c))
+  return best
+
+
+def random_member_from(space, rng, strings):
+  """`random_member` with the custom genomes drawn from the values of the
+  point, else from `strings`."""
+  out = []
+  for e in space['elems']:
+    if e['t'] == 'float':
+      out.append(rng.choice([e['lo'], e['hi'], rng.uniform(e['lo'], e['hi'])]))
+    elif e['t'] == 'custom':
+      out.append(rng.choice(custom_values(e) or strings))
+    else:
+      n, k = len(e['cands']), e['k']
+      if e['distinct'] and k > 1:
+        picks = rng.sample(range(n), k)
+      else:
+        picks = [rng.randrange(n) for _ in range(k)]
+      if e['sorted']:
+        picks.sort()
+      for p in picks:
+        out.append(p)
+        out.extend(random_member_from(e['cands'][p], rng, strings))
+  return tuple(out)
